@@ -267,7 +267,7 @@ func init() {
 			}
 		},
 		Min: mins(map[string]int64{"c16_histories": 20000, "c16_searches": 20000, "c16_evictions": 500, "c16_reload_after_eviction": 200, "c16_stress_searches": 3000},
-			map[string]int64{"c16_histories": 300000, "c16_searches": 300000, "c16_evictions": 30000, "c16_reload_after_eviction": 8000, "c16_stress_searches": 40000}),
+			map[string]int64{"c16_histories": 150000, "c16_searches": 150000, "c16_evictions": 5000, "c16_reload_after_eviction": 3000, "c16_stress_searches": 40000}),
 	}
 	props["C19"] = &propSpec{
 		Level:       "fault_enumeration",
